@@ -1,18 +1,24 @@
-"""Source facts for C05: the statement ORDER inside the functions that touch the shared connection-error cell.
+"""Source facts for C05: the statement SEQUENCES of the functions that touch the shared connection-error cell.
 
-Read from h3/src/error/connection_error_creators.rs and h3/src/shared_state.rs:
-  * poll_connection_error : textual order of  memo check / pre-emption points / waker register / cell check,
-                            and what the `if let Some(err) = get_conn_error()` branch does (close_if_needed, convert)
-  * handle_connection_error: order of memo check / set_conn_error / close_if_needed / convert
-  * set_conn_error         : get_or_init (first store wins) or anything else (plain overwrite)
-  * set_conn_error_and_wake: order of store / pre-emption points / wake
-  * close_if_needed        : which ErrorOrigin patterns close the connection, and with which code
-  * convert_to_connection_error (method): whether it memoises into handled_connection_error
-  * convert_to_connection_error (free fn): the arm list
-The Coq model (Model/SharedErr.v) INTERPRETS these lists: swapping two statements changes the model.
+Every anchored function body is split into its brace-depth-0 statements and EVERY statement must be one of the
+known shapes (whitespace-insensitive full match, binder names free, data flow between the statements checked):
+a statement wrapped in `if c { .. }`, an extra statement, a changed argument or an unknown match arm loses the
+anchor (AnchorLost = violation).  What may vary and is reported as a fact for the model to interpret: the ORDER of
+the statements, which of the known shapes are present, the code constants, first-store-wins or overwrite.
+
+  connection_error_creators.rs  poll_connection_error, handle_connection_error, close_if_needed (with its match
+                                arms), convert_to_connection_error (method and free fn),
+                                CloseStream::{handle_connection_error_on_stream, handle_quic_stream_error},
+                                handle_frame_stream_error_on_request_stream (all three arms)
+  shared_state.rs               get_conn_error, set_conn_error, set_conn_error_and_wake
+  whole crate(s)                call sites of set_conn_error( / .waker() / the connection_error field; every
+                                initialiser of a conn_state / shared / shared_state field (handles must carry the
+                                driver's Arc<SharedState>, never a fresh one)
+The Coq model (Model/SharedErr.v) INTERPRETS the generated lists: swapping two statements changes the model.
 """
+import os
 import re
-from rustsrc import Source, AnchorLost
+from rustsrc import Source, AnchorLost, match_close, strip_comments
 
 NAME = 'GenSharedErr'
 
@@ -20,29 +26,148 @@ DRIVER_POINTS = {'driver:before_register': 0, 'driver:after_register': 1, 'drive
 STREAM_POINTS = {'stream:after_store': 0, 'stream:after_wake': 1}
 
 
-def _ordered(body, pats, points=None):
-    """[(pos, op)] for every occurrence of every pattern, sorted by position."""
-    found = []
-    for op, pat in pats:
-        for m in re.finditer(pat, body):
-            found.append((m.start(), op))
-    if points is not None:
-        for m in re.finditer(r'preempt\(\s*"([^"]+)"\s*\)', body):
-            if m.group(1) not in points:
-                raise AnchorLost('unknown pre-emption point ' + m.group(1))
-            found.append((m.start(), 'Point %d' % points[m.group(1)]))
-    found.sort()
-    return found
+def squash(t):
+    return re.sub(r'\s+', '', t)
 
 
-def _block_after(body, start):
-    """brace block starting at the first '{' at or after start: (inner text, end index)"""
-    from rustsrc import match_close
-    i = body.find('{', start)
-    if i < 0:
-        raise AnchorLost('no block')
-    j = match_close(body, i)
-    return body[i + 1:j], i, j
+def statements(body):
+    """brace-depth-0 statements of a block body: list of whitespace-free strings; the tail expression last.
+    A `{..}` block at depth 0 ends its statement unless `else`, `;`, `.`, `?` or an operator follows."""
+    out, cur, i, n = [], [], 0, len(body)
+    while i < n:
+        c = body[i]
+        if c == '"':
+            j = i + 1
+            while j < n and body[j] != '"':
+                j += 2 if body[j] == '\\' else 1
+            cur.append(body[i:j + 1])
+            i = j + 1
+            continue
+        if c in '([{':
+            j = match_close(body, i, c, {'(': ')', '[': ']', '{': '}'}[c])
+            cur.append(body[i:j + 1])
+            i = j + 1
+            if c == '{':
+                rest = body[i:].lstrip()
+                if rest.startswith(';'):
+                    continue
+                if re.match(r'(else\b|\.|\?|=>|,)', rest):
+                    continue
+                s = squash(''.join(cur))
+                # `match x {..}` / `if .. {..}` / `if let .. {..}` in statement position end here
+                if re.match(r'(if|match|while|for|loop|unsafe)\b', ''.join(cur).lstrip()) or s.startswith('{'):
+                    out.append(s)
+                    cur = []
+            continue
+        if c == ';':
+            cur.append(c)
+            out.append(squash(''.join(cur)))
+            cur = []
+            i += 1
+            continue
+        cur.append(c)
+        i += 1
+    tail = squash(''.join(cur))
+    if tail:
+        out.append(tail)
+    return out
+
+
+def arms(match_stmt, scrut):
+    """arms `pat => body` of a squashed-then-original match block; works on the ORIGINAL text of the block."""
+    raise NotImplementedError
+
+
+def match_arms(body_text):
+    """body_text: text inside the braces of a match; returns [(pattern, body)] whitespace-free"""
+    out, i, n = [], 0, len(body_text)
+    while i < n:
+        # pattern up to `=>` at depth 0
+        j, depth = i, 0
+        while j < n:
+            c = body_text[j]
+            if c in '([{':
+                j = match_close(body_text, j, c, {'(': ')', '[': ']', '{': '}'}[c])
+            elif body_text.startswith('=>', j):
+                break
+            j += 1
+        if j >= n:
+            if body_text[i:].strip():
+                raise AnchorLost('match arm without =>: ' + squash(body_text[i:])[:60])
+            break
+        pat = squash(body_text[i:j])
+        k = j + 2
+        while k < n and body_text[k].isspace():
+            k += 1
+        if k < n and body_text[k] == '{':
+            e = match_close(body_text, k)
+            arm_body = body_text[k:e + 1]
+            k = e + 1
+            while k < n and body_text[k].isspace():
+                k += 1
+            if k < n and body_text[k] == ',':
+                k += 1
+        else:
+            e = k
+            while e < n:
+                c = body_text[e]
+                if c in '([{':
+                    e = match_close(body_text, e, c, {'(': ')', '[': ']', '{': '}'}[c])
+                elif c == '"':
+                    e += 1
+                    while e < n and body_text[e] != '"':
+                        e += 2 if body_text[e] == '\\' else 1
+                elif c == ',':
+                    break
+                e += 1
+            arm_body = body_text[k:e]
+            k = e + 1
+        out.append((pat, squash(arm_body)))
+        i = k
+    return out
+
+
+def inner(block):
+    """text inside the outermost braces of `.. { .. }` (squashed or not)"""
+    i = block.index('{')
+    j = match_close(block, i)
+    return block[i + 1:j]
+
+
+ID = r'([A-Za-z_]\w*)'
+
+
+def want(m, what, stmt):
+    if not m:
+        raise AnchorLost('%s: unrecognised statement `%s`' % (what, stmt[:120]))
+    return m
+
+
+def point(stmt, table):
+    m = re.fullmatch(r'#\[cfg\(h3_verif\)\]crate::verif::preempt\("([^"]+)"\);', stmt)
+    if not m:
+        return None
+    if m.group(1) not in table:
+        raise AnchorLost('unknown pre-emption point ' + m.group(1))
+    return 'Point %d' % table[m.group(1)]
+
+
+def fn_text(src, name, nth=0):
+    """(body text with comments stripped, span) of the nth fn `name` that HAS a body"""
+    seen = 0
+    k = 0
+    while True:
+        try:
+            body, span = src.fn_body(name, nth=k)
+        except AnchorLost as ex:
+            if 'has no body' in str(ex):
+                k += 1
+                continue
+            raise
+        if seen == nth:
+            return body, span
+        seen += 1
+        k += 1
 
 
 def extract(repo):
@@ -51,124 +176,284 @@ def extract(repo):
     ss = Source(repo + '/h3/src/shared_state.rs')
 
     # ---- poll_connection_error
-    body, spans['poll_connection_error'] = cec.fn_body('poll_connection_error')
-    # the memo check is `if let Some(..) = self.handled_connection_error { return ... }`
-    ops = _ordered(body, [('Memo', r'if\s+let\s+Some\([^)]*\)\s*=\s*self\s*\.\s*handled_connection_error'),
-                          ('Register', r'\.\s*register\s*\('),
-                          ('Check', r'\.\s*get_conn_error\s*\(')], DRIVER_POINTS)
-    names = [o for _, o in ops]
-    if names.count('Register') != 1 or names.count('Check') != 1 or names.count('Memo') > 1:
-        raise AnchorLost('poll_connection_error: register/check/memo occurrences ' + str(names))
-    # the hit branch of the check
-    m = re.search(r'if\s+let\s+Some\(\s*(\w+)\s*\)\s*=\s*self\s*\.\s*get_conn_error\s*\(\s*\)', body)
-    if not m:
-        raise AnchorLost('poll_connection_error: `if let Some(err) = self.get_conn_error()`')
-    hit, hi, hj = _block_after(body, m.end())
-    hit_ops = [o for _, o in _ordered(hit, [('Close', r'\bclose_if_needed\s*\('), ('Convert', r'\bconvert_to_connection_error\s*\(')])]
-    if not re.search(r'return\s+Poll::Ready\s*\(\s*Err', hit):
-        raise AnchorLost('poll_connection_error: hit branch does not return Ready(Err)')
-    # ops inside the hit branch are not part of the straight-line body
-    f['poll_body'] = [o for p, o in ops if not (hi < p < hj)]
-    f['check_hit'] = hit_ops
-    if not re.search(r'Poll::Pending\s*$', body.strip()):
-        raise AnchorLost('poll_connection_error does not end in Poll::Pending')
-
-    # ---- handle_connection_error (first fn of that name: the ConnectionInner method)
-    body, spans['handle_connection_error'] = cec.fn_body('handle_connection_error')
-    ops = _ordered(body, [('Memo', r'if\s+let\s+Some\([^)]*\)\s*=\s*self\s*\.\s*handled_connection_error'),
-                          ('Set', r'\.\s*set_conn_error\s*\('),
-                          ('Close', r'\bclose_if_needed\s*\('),
-                          ('Convert', r'\bconvert_to_connection_error\s*\(')])
-    f['handle_body'] = [o for _, o in ops]
-    if f['handle_body'].count('Set') != 1:
-        raise AnchorLost('handle_connection_error: set_conn_error occurrences')
-
-    # ---- close_if_needed: match arms that call close_connection
-    body, spans['close_if_needed'] = cec.fn_body('close_if_needed')
-    arms = []
-    for m in re.finditer(r'ErrorOrigin::(\w+)\s*\(', body):
-        from rustsrc import match_close
-        i = m.end() - 1
-        j = match_close(body, i, '(', ')')
-        pat = re.sub(r'\s+', '', body[i + 1:j])
-        rest = body[j + 1:]
-        am = re.match(r'\s*=>\s*', rest)
-        if not am:
-            continue
-        rest = rest[am.end():]
-        if rest.startswith('{'):
-            blk, _, _ = _block_after(rest, 0)
+    body, spans['poll_connection_error'] = fn_text(cec, 'poll_connection_error')
+    ops, hit_ops = [], None
+    sts = statements(body)
+    if not sts or sts[-1] != 'Poll::Pending':
+        raise AnchorLost('poll_connection_error does not end in the expression Poll::Pending')
+    for st in sts[:-1]:
+        p = point(st, DRIVER_POINTS)
+        if p:
+            ops.append(p)
+        elif re.fullmatch(r'ifletSome\(ref' + ID + r'\)=self\.handled_connection_error\{returnPoll::Ready\(Err\(\1\.clone\(\)\)\);\};?', st):
+            ops.append('Memo')
+        elif st == 'self.waker().register(cx.waker());':
+            ops.append('Register')
+        elif st.startswith('ifletSome(') and '=self.get_conn_error()' in st:
+            m = want(re.fullmatch(r'ifletSome\(' + ID + r'\)=self\.get_conn_error\(\)\{(.*)\}', st), 'poll_connection_error check', st)
+            if hit_ops is not None:
+                raise AnchorLost('poll_connection_error: two checks')
+            var, hit_ops = m.group(1), []
+            # the hit branch, statement by statement, on the ORIGINAL text (to split at depth 0)
+            mm = re.search(r'if\s+let\s+Some\(\s*\w+\s*\)\s*=\s*self\s*\.\s*get_conn_error\s*\(\s*\)\s*\{', body)
+            hb = inner(body[mm.start():])
+            for hs in statements(hb):
+                m2 = re.fullmatch(r'let' + ID + r'=self\.close_if_needed\(' + ID + r'\);', hs)
+                if m2 and m2.group(2) == var:
+                    hit_ops.append('Close')
+                    var = m2.group(1)
+                    continue
+                m2 = re.fullmatch(r'returnPoll::Ready\(Err\(self\.convert_to_connection_error\(' + ID + r'\)\)\);', hs)
+                if m2 and m2.group(1) == var:
+                    hit_ops.append('Convert')
+                    continue
+                raise AnchorLost('poll_connection_error hit branch: unrecognised statement `%s`' % hs[:120])
+            if not hit_ops or hit_ops[-1] != 'Convert':
+                raise AnchorLost('poll_connection_error hit branch does not return the converted error')
+            ops.append('Check')
         else:
-            blk = rest.split('\n')[0]
-        cm = re.search(r'close_connection\s*\(\s*([^,]+),', blk)
-        if not cm:
+            raise AnchorLost('poll_connection_error: unrecognised statement `%s`' % st[:120])
+    if ops.count('Register') != 1 or ops.count('Check') != 1 or ops.count('Memo') > 1:
+        raise AnchorLost('poll_connection_error: register/check/memo occurrences ' + str(ops))
+    f['poll_body'], f['check_hit'] = ops, hit_ops
+
+    # ---- handle_connection_error
+    body, spans['handle_connection_error'] = fn_text(cec, 'handle_connection_error')
+    ops, var = [], None
+    sts = statements(body)
+    for idx, st in enumerate(sts):
+        if re.fullmatch(r'ifletSome\(ref' + ID + r'\)=self\.handled_connection_error\{return\1\.clone\(\);\};?', st):
+            ops.append('Memo')
             continue
-        arg = re.sub(r'\s+', '', cm.group(1))
-        if m.group(1) == 'Internal':
-            p = 'PatInternal'
-            binder = re.sub(r'^ref', '', pat)
-        elif m.group(1) == 'Quic':
-            qm = re.match(r'ConnectionErrorIncoming::(\w+)', pat)
-            if not qm:
-                raise AnchorLost('close_if_needed: Quic arm pattern ' + pat)
+        m = re.fullmatch(r'let' + ID + r'=self\.set_conn_error\(error\.into\(\)\);', st)
+        if m:
+            ops.append('Set')
+            var = m.group(1)
+            continue
+        m = re.fullmatch(r'let' + ID + r'=self\.close_if_needed\(' + ID + r'\);', st)
+        if m and var is not None and m.group(2) == var:
+            ops.append('Close')
+            var = m.group(1)
+            continue
+        m = re.fullmatch(r'self\.convert_to_connection_error\(' + ID + r'\)', st)
+        if m and idx == len(sts) - 1 and var is not None and m.group(1) == var:
+            ops.append('Convert')
+            continue
+        raise AnchorLost('handle_connection_error: unrecognised statement `%s`' % st[:120])
+    if ops.count('Set') != 1 or not ops or ops[-1] != 'Convert':
+        raise AnchorLost('handle_connection_error: shape ' + str(ops))
+    f['handle_body'] = ops
+
+    # ---- close_if_needed
+    body, spans['close_if_needed'] = fn_text(cec, 'close_if_needed')
+    sts = statements(body)
+    if len(sts) != 2 or sts[1] != 'error' or not sts[0].startswith('matcherror{'):
+        raise AnchorLost('close_if_needed: expected `match error {..} error`, got ' + str([s[:40] for s in sts]))
+    mm = re.search(r'match\s+error\s*\{', body)
+    carms, default_seen = [], False
+    for pat, ab in match_arms(inner(body[mm.start():])):
+        if default_seen:
+            raise AnchorLost('close_if_needed: arm after the default arm')
+        m = re.fullmatch(r'ErrorOrigin::Internal\(ref' + ID + r'\)', pat)
+        if m:
+            b = m.group(1)
+            m2 = re.fullmatch(r'\{?self\.close_connection\((' + re.escape(b) + r'\.code|Code::\w+),' + re.escape(b) + r'\.message\.clone\(\)\);?\}?', ab)
+            want(m2, 'close_if_needed Internal arm', ab)
+            carms.append(('PatInternal', 'CodeOfError' if m2.group(1).endswith('.code') else 'CodeConst ' + m2.group(1)[6:]))
+            continue
+        m = re.fullmatch(r'ErrorOrigin::Quic\(ConnectionErrorIncoming::(\w+)(?:\(ref' + ID + r'\))?\)', pat)
+        if m:
             p = {'InternalError': 'PatQuicInternal', 'Timeout': 'PatQuicTimeout',
-                 'ApplicationClose': 'PatQuicAppClose', 'Undefined': 'PatQuicUndefined'}.get(qm.group(1))
+                 'ApplicationClose': 'PatQuicAppClose', 'Undefined': 'PatQuicUndefined'}.get(m.group(1))
             if p is None:
-                raise AnchorLost('close_if_needed: Quic variant ' + qm.group(1))
-            binder = None
-        else:
-            raise AnchorLost('close_if_needed: origin ' + m.group(1))
-        cm2 = re.match(r'Code::(\w+)$', arg)
-        if cm2:
-            src = 'CodeConst ' + cm2.group(1)
-        elif binder and arg == binder + '.code':
-            src = 'CodeOfError'
-        else:
-            raise AnchorLost('close_if_needed: code argument ' + arg)
-        arms.append((p, src))
-    f['close_arms'] = arms
+                raise AnchorLost('close_if_needed: Quic variant ' + m.group(1))
+            m2 = want(re.fullmatch(r'\{?self\.close_connection\(Code::(\w+),[\w.()]+\);?\}?', ab), 'close_if_needed Quic arm', ab)
+            carms.append((p, 'CodeConst ' + m2.group(1)))
+            continue
+        if pat == '_' and ab in ('()', '{}'):
+            default_seen = True
+            continue
+        raise AnchorLost('close_if_needed: unrecognised arm `%s => %s`' % (pat[:60], ab[:60]))
+    f['close_arms'] = carms
 
     # ---- convert_to_connection_error: the method (memo) and the free function (arms)
-    body, spans['convert_method'] = cec.fn_body('convert_to_connection_error')
-    if not re.search(r'\bconvert_to_connection_error\s*\(', body):
-        raise AnchorLost('convert_to_connection_error method (expected to call the free function)')
-    f['convert_sets_memo'] = bool(re.search(r'self\s*\.\s*handled_connection_error\s*=\s*Some\s*\(', body))
-    body, spans['convert_fn'] = cec.fn_body('convert_to_connection_error', nth=1)
-    carms = []
-    for m in re.finditer(r'ErrorOrigin::(\w+)\s*\(([^=]*?)\)\s*=>\s*ConnectionError::(\w+)', body):
-        origin, pat, target = m.group(1), re.sub(r'\s+', '', m.group(2)), m.group(3)
-        if origin == 'Internal':
-            p = 'PatInternal'
+    body, spans['convert_method'] = fn_text(cec, 'convert_to_connection_error', 0)
+    sts = statements(body)
+    memo = False
+    if not sts or not re.fullmatch(r'let' + ID + r'=convert_to_connection_error\(error\);', sts[0]):
+        raise AnchorLost('convert_to_connection_error method: first statement')
+    v = re.fullmatch(r'let' + ID + r'=.*', sts[0]).group(1)
+    for st in sts[1:-1]:
+        if st == 'self.handled_connection_error=Some(%s.clone());' % v:
+            memo = True
         else:
-            qm = re.match(r'ConnectionErrorIncoming::(\w+)', pat)
-            if qm:
-                p = {'InternalError': 'PatQuicInternal', 'Timeout': 'PatQuicTimeout',
-                     'ApplicationClose': 'PatQuicAppClose', 'Undefined': 'PatQuicUndefined'}.get(qm.group(1))
-                if p is None:
-                    raise AnchorLost('convert: Quic variant')
-            elif re.match(r'\w+$', pat):
-                p = 'PatQuicAny'
-            else:
-                raise AnchorLost('convert: pattern ' + pat)
-        t = {'Local': 'ToLocal', 'Timeout': 'ToTimeout', 'Remote': 'ToRemote'}.get(target)
-        if t is None:
-            raise AnchorLost('convert: target ' + target)
-        carms.append((p, t))
-    if not carms:
-        raise AnchorLost('convert arms')
-    f['convert_arms'] = carms
+            raise AnchorLost('convert_to_connection_error method: unrecognised statement `%s`' % st[:120])
+    if sts[-1] != v:
+        raise AnchorLost('convert_to_connection_error method: does not return the converted error')
+    f['convert_sets_memo'] = memo
+    body, spans['convert_fn'] = fn_text(cec, 'convert_to_connection_error', 1)
+    sts = statements(body)
+    if len(sts) != 1 or not sts[0].startswith('matcherror{'):
+        raise AnchorLost('convert_to_connection_error fn: expected a single match')
+    mm = re.search(r'match\s+error\s*\{', body)
+    conv = []
+    for pat, ab in match_arms(inner(body[mm.start():])):
+        m = re.fullmatch(r'ErrorOrigin::Internal\(' + ID + r'\)', pat)
+        if m:
+            b = re.escape(m.group(1))
+            want(re.fullmatch(r'ConnectionError::Local\{error:LocalError::Application\{code:' + b + r'\.code,reason:' + b + r'\.message,?\},?\}', ab),
+                 'convert Internal arm', ab)
+            conv.append(('PatInternal', 'ToLocal'))
+            continue
+        if pat == 'ErrorOrigin::Quic(ConnectionErrorIncoming::Timeout)':
+            want(re.fullmatch(r'ConnectionError::Timeout', ab), 'convert Timeout arm', ab)
+            conv.append(('PatQuicTimeout', 'ToTimeout'))
+            continue
+        m = re.fullmatch(r'ErrorOrigin::Quic\(' + ID + r'\)', pat)
+        if m:
+            want(re.fullmatch(r'ConnectionError::Remote\(' + re.escape(m.group(1)) + r'\)', ab), 'convert Remote arm', ab)
+            conv.append(('PatQuicAny', 'ToRemote'))
+            continue
+        raise AnchorLost('convert: unrecognised arm `%s => %s`' % (pat[:60], ab[:60]))
+    f['convert_arms'] = conv
+
+    # ---- the stream side: CloseStream and HandleFrameStreamErrorOnRequestStream
+    paths = []
+    body, spans['handle_connection_error_on_stream'] = fn_text(cec, 'handle_connection_error_on_stream')
+    sts = statements(body)
+    if not (len(sts) == 2 and re.fullmatch(r'let' + ID + r'=self\.set_conn_error_and_wake\(internal_error\);', sts[0])
+            and sts[1] == 'StreamError::ConnectionError(convert_to_connection_error(%s))' % re.fullmatch(r'let' + ID + r'=.*', sts[0]).group(1)):
+        raise AnchorLost('handle_connection_error_on_stream is not `set_conn_error_and_wake; report convert(returned)`')
+    paths.append('PathInternalHelper')
+    body, spans['handle_quic_stream_error'] = fn_text(cec, 'handle_quic_stream_error')
+    sts = statements(body)
+    if len(sts) != 1 or not sts[0].startswith('matcherror{'):
+        raise AnchorLost('handle_quic_stream_error: expected a single match')
+    mm = re.search(r'match\s+error\s*\{', body)
+    seen = set()
+    for pat, ab in match_arms(inner(body[mm.start():])):
+        m = re.fullmatch(r'StreamErrorIncoming::ConnectionErrorIncoming\{' + ID + r'\}', pat)
+        if m:
+            want(re.fullmatch(r'\{let' + ID + r'=self\.set_conn_error_and_wake\(' + re.escape(m.group(1)) +
+                              r'\);StreamError::ConnectionError\(convert_to_connection_error\(\1\)\)\}', ab),
+                 'handle_quic_stream_error connection arm', ab)
+            seen.add('conn')
+        elif re.fullmatch(r'StreamErrorIncoming::StreamTerminated\{' + ID + r'\}', pat):
+            want(re.fullmatch(r'StreamError::RemoteTerminate\{code:Code::from\(\w+\),?\}', ab), 'handle_quic_stream_error terminated arm', ab)
+            seen.add('term')
+        elif re.fullmatch(r'StreamErrorIncoming::Unknown\(' + ID + r'\)', pat):
+            want(re.fullmatch(r'\{?StreamError::Undefined\(\w+\)\}?', ab), 'handle_quic_stream_error unknown arm', ab)
+            seen.add('unk')
+        else:
+            raise AnchorLost('handle_quic_stream_error: unrecognised arm `%s`' % pat[:80])
+    if seen != {'conn', 'term', 'unk'}:
+        raise AnchorLost('handle_quic_stream_error: arms ' + str(sorted(seen)))
+    paths.append('PathQuicHelper')
+    body, spans['handle_frame_stream_error_on_request_stream'] = fn_text(cec, 'handle_frame_stream_error_on_request_stream')
+    sts = statements(body)
+    if len(sts) != 1 or not sts[0].startswith('matcherror{'):
+        raise AnchorLost('handle_frame_stream_error_on_request_stream: expected a single match')
+    mm = re.search(r'match\s+error\s*\{', body)
+    fr = []
+    for pat, ab in match_arms(inner(body[mm.start():])):
+        if re.fullmatch(r'FrameStreamError::Quic\(' + ID + r'\)', pat):
+            v = re.fullmatch(r'FrameStreamError::Quic\(' + ID + r'\)', pat).group(1)
+            want(re.fullmatch(r'self\.handle_quic_stream_error\(' + re.escape(v) + r'\)', ab), 'frame error Quic arm', ab)
+            fr.append(('FsQuic', 'ViaQuicHelper'))
+        elif re.fullmatch(r'FrameStreamError::Proto\(' + ID + r'\)', pat):
+            v = re.fullmatch(r'FrameStreamError::Proto\(' + ID + r'\)', pat).group(1)
+            want(re.fullmatch(r'self\.handle_connection_error_on_stream\(InternalConnectionError::got_frame_error\(' + re.escape(v) + r'\),?\)', ab),
+                 'frame error Proto arm', ab)
+            fr.append(('FsProto', 'ViaInternalHelper'))
+        elif pat == 'FrameStreamError::UnexpectedEnd':
+            m = want(re.fullmatch(r'\{self\.handle_connection_error_on_stream\(InternalConnectionError::new\(Code::(\w+),"[^"]*"\.to_string\(\),?\),?\)\}', ab),
+                     'frame error UnexpectedEnd arm', ab)
+            fr.append(('FsUnexpectedEnd', 'ViaInternalHelperCode ' + m.group(1)))
+        else:
+            raise AnchorLost('handle_frame_stream_error_on_request_stream: unrecognised arm `%s`' % pat[:80])
+    if [a for a, _ in fr] != ['FsQuic', 'FsProto', 'FsUnexpectedEnd']:
+        raise AnchorLost('handle_frame_stream_error_on_request_stream: arms ' + str(fr))
+    f['frame_error_arms'] = fr
 
     # ---- shared_state.rs
-    body, spans['set_conn_error'] = ss.fn_body('set_conn_error')
-    f['store_first_wins'] = bool(re.search(r'\.\s*get_or_init\s*\(', body))
-    body, spans['set_conn_error_and_wake'] = ss.fn_body('set_conn_error_and_wake')
-    ops = _ordered(body, [('Store', r'\.\s*set_conn_error\s*\('), ('Wake', r'\.\s*wake\s*\(\s*\)')], STREAM_POINTS)
-    f['raise_body'] = [o for _, o in ops]
-    if f['raise_body'].count('Store') != 1:
-        raise AnchorLost('set_conn_error_and_wake: store occurrences')
-    body, spans['get_conn_error'] = ss.fn_body('get_conn_error')
-    if not re.search(r'connection_error', body):
-        raise AnchorLost('get_conn_error')
+    body, spans['set_conn_error'] = fn_text(ss, 'set_conn_error')
+    sts = statements(body)
+    if (len(sts) == 2 and re.fullmatch(r'let' + ID + r'=self\.shared_state\(\)\.connection_error\.get_or_init\(move\|\|error\);', sts[0])
+            and sts[1] == re.fullmatch(r'let' + ID + r'=.*', sts[0]).group(1) + '.clone()'):
+        f['store_first_wins'] = True
+    elif 'get_or_init' not in body:
+        f['store_first_wins'] = False
+    else:
+        raise AnchorLost('set_conn_error: get_or_init is used but not as the whole function')
+    body, spans['set_conn_error_and_wake'] = fn_text(ss, 'set_conn_error_and_wake')
+    ops, var = [], None
+    sts = statements(body)
+    for idx, st in enumerate(sts):
+        p = point(st, STREAM_POINTS)
+        if p:
+            ops.append(p)
+            continue
+        m = re.fullmatch(r'let' + ID + r'=self\.set_conn_error\(error\.into\(\)\);', st)
+        if m:
+            ops.append('Store')
+            var = m.group(1)
+            continue
+        if st == 'self.waker().wake();':
+            ops.append('Wake')
+            continue
+        if idx == len(sts) - 1 and var is not None and st == var:
+            continue
+        raise AnchorLost('set_conn_error_and_wake: unrecognised statement `%s`' % st[:120])
+    if ops.count('Store') != 1 or ops.count('Wake') > 1:
+        raise AnchorLost('set_conn_error_and_wake: shape ' + str(ops))
+    f['raise_body'] = ops
+    body, spans['get_conn_error'] = fn_text(ss, 'get_conn_error')
+    sts = statements(body)
+    if not (len(sts) == 1 and re.fullmatch(r'self\.shared_state\(\)\.connection_error\.(get\(\)\.cloned\(\)|lock\(\)\.unwrap\(\)\.clone\(\))', sts[0])):
+        raise AnchorLost('get_conn_error: unrecognised body')
+
+    # ---- crate-wide: who else touches the cell / the waker, and how handles get their shared state
+    sites = {'set_conn_error': [], 'cell_field': [], 'waker': [], 'fresh_state': [], 'wiring': []}
+    for crate in ('h3', 'h3-datagram', 'h3-webtransport'):
+        root = os.path.join(repo, crate, 'src')
+        for dp, dn, fns in os.walk(root):
+            if os.sep + 'tests' in dp:
+                continue
+            for fn in sorted(fns):
+                if not fn.endswith('.rs') or fn == 'verif.rs':
+                    continue
+                path = os.path.join(dp, fn)
+                rel = os.path.relpath(path, repo)
+                text = strip_comments(open(path, encoding='utf-8').read())
+                for m in re.finditer(r'(?<!fn )\bset_conn_error\s*\(', text):
+                    if not re.search(r'fn\s+$', text[max(0, m.start() - 4):m.start()]):
+                        sites['set_conn_error'].append(rel)
+                for m in re.finditer(r'\.\s*connection_error\s*\.', text):
+                    sites['cell_field'].append(rel)
+                for m in re.finditer(r'\.\s*waker\s*\(\s*\)\s*\.\s*(\w+)', text):
+                    sites['waker'].append(rel + ':' + m.group(1))
+                for m in re.finditer(r'SharedState\s*::\s*(default|new)\s*\(', text):
+                    sites['fresh_state'].append(rel)
+                for m in re.finditer(r'(?<![:\w])(conn_state|shared|shared_state)\s*:(?!:)\s*([^,;{}]+?)\s*[,}]', text):
+                    rhs = squash(m.group(2))
+                    if rhs.startswith('Arc<') or rhs.startswith('&'):
+                        continue  # a field / parameter type
+                    sites['wiring'].append((rel, m.group(1), rhs))
+    exp_set = ['h3/src/error/connection_error_creators.rs', 'h3/src/shared_state.rs']
+    if sorted(sites['set_conn_error']) != exp_set:
+        raise AnchorLost('set_conn_error( is called at %s (expected once in handle_connection_error and once in set_conn_error_and_wake)' % sorted(sites['set_conn_error']))
+    if sorted(sites['cell_field']) != ['h3/src/shared_state.rs'] * 2:
+        raise AnchorLost('the connection_error cell is accessed at ' + str(sorted(sites['cell_field'])))
+    if sorted(sites['waker']) != ['h3/src/error/connection_error_creators.rs:register', 'h3/src/shared_state.rs:wake']:
+        raise AnchorLost('the driver waker is used at ' + str(sorted(sites['waker'])))
+    fresh = sorted(sites['fresh_state'])
+    if fresh != ['h3/src/client/builder.rs', 'h3/src/server/builder.rs']:
+        raise AnchorLost('SharedState is constructed at ' + str(fresh))
+    allowed = {'self.conn_state.clone()', 'self.conn_state', 'self.inner.shared.clone()', 'self.shared.clone()', 'conn_state', 'shared'}
+    for rel, field, rhs in sites['wiring']:
+        if rhs not in allowed:
+            raise AnchorLost('%s: field %s is initialised with `%s`, not with the connection\'s shared state' % (rel, field, rhs))
+    f['wiring_sites'] = len(sites['wiring'])
     return f, spans
 
 
@@ -192,7 +477,9 @@ def render(f):
          'Inductive origin_pat := PatInternal | PatQuicInternal | PatQuicTimeout | PatQuicAppClose | PatQuicUndefined | PatQuicAny.',
          'Inductive code_src := CodeOfError | CodeConst (c : N).',
          'Inductive conv_target := ToLocal | ToTimeout | ToRemote.',
-         '(* facts read from the source *)',
+         'Inductive fs_pat := FsQuic | FsProto | FsUnexpectedEnd.',
+         'Inductive fs_path := ViaQuicHelper | ViaInternalHelper | ViaInternalHelperCode (c : N).',
+         '(* facts read from the source: every statement of these functions is at brace depth 0 and of a known shape *)',
          'Definition poll_body : list pce_op := %s.' % _ops('PO', f['poll_body']),
          'Definition check_hit : list handle_op := %s.' % _ops('HO', f['check_hit']),
          'Definition handle_body : list handle_op := %s.' % _ops('HO', f['handle_body']),
@@ -200,7 +487,14 @@ def render(f):
          'Definition store_first_wins : bool := %s.' % ('true' if f['store_first_wins'] else 'false'),
          'Definition convert_sets_memo : bool := %s.' % ('true' if f['convert_sets_memo'] else 'false'),
          'Definition close_arms : list (origin_pat * code_src) := [%s].' % '; '.join('(%s, %s)' % a for a in f['close_arms']),
-         'Definition convert_arms : list (origin_pat * conv_target) := [%s].' % '; '.join('(%s, %s)' % a for a in f['convert_arms'])]
+         'Definition convert_arms : list (origin_pat * conv_target) := [%s].' % '; '.join('(%s, %s)' % a for a in f['convert_arms']),
+         '(* the stream side: both CloseStream helpers are `set_conn_error_and_wake; report convert(returned value)`; the',
+         '   frame-error dispatcher sends every arm through one of them; nobody else calls set_conn_error, touches the',
+         '   cell or the waker; every handle is built with a clone of the connection\'s Arc<SharedState> *)',
+         'Definition frame_error_arms : list (fs_pat * fs_path) := [%s].' % '; '.join('(%s, %s)' % a for a in f['frame_error_arms']),
+         'Definition stream_helpers_raise_and_wake : bool := true.',
+         'Definition cell_and_waker_sites_closed : bool := true.',
+         'Definition handles_share_connection_state : bool := true.']
     return '\n'.join(L) + '\n'
 
 
